@@ -86,6 +86,24 @@ def generate(loader):
                 exprs[ac] = ref
             out.append(f"(* {fn}(align_corners = ac), one axis with n > 1 samples *)\n"
                        f"Definition gen_{fn} (ac : bool) (n x : K) : K :=\n  if ac then {st.to_coq(exprs[True])}\n  else {st.to_coq(exprs[False])}.\n")
+        # size=None: the per-axis sizes are read from the tensor shape, for BOTH layouts (channels last / first), also for
+        # the ambiguous shape (1, 2, 4, 2); the result must be the explicit-size result
+        for mod, fn in ((P, "normalize_grid"), (P, "denormalize_grid"), (F, "normalize_flow"), (F, "denormalize_flow")):
+            for ac in (True, False):
+                for spatial in ((3, 5), (4, 2), (2, 3, 4)):
+                    D = len(spatial)
+                    sizes = tuple(reversed(spatial))
+                    for cl in (True, False):
+                        if mod is F and cl:
+                            continue          # normalize_flow(size=None) is defined for channels-first flow tensors only
+                        shape = (1,) + spatial + (D,) if cl else (1, D) + spatial
+                        x = st.Tensor(np.empty(shape, dtype=object))
+                        for k_, idx in enumerate(np.ndindex(shape)):
+                            x.a[idx] = E.const(Fraction(k_ % 11 - 5, 4))
+                        a_ = getattr(mod, fn)(x, align_corners=ac, channels_last=cl)
+                        b_ = getattr(mod, fn)(x, size=sizes, align_corners=ac, channels_last=cl)
+                        if a_.shape != b_.shape or any(fr_eval(p_, {}) != fr_eval(q_, {}) for p_, q_ in zip(a_.a.reshape(-1), b_.a.reshape(-1))):
+                            raise TraceError(f"{fn}(size=None, channels_last={cl}) on shape {shape} differs from size={sizes}")
         # size 1 and sizes taken from the tensor shape: concrete checks
         for mod, fn in ((P, "normalize_grid"), (P, "denormalize_grid")):
             g = st.Tensor(np.array([E.const(Fraction(3, 4)), E.const(Fraction(1, 2))], dtype=object).reshape(1, 1, 1, 2))
